@@ -179,7 +179,7 @@ CLAIMS = {
         "these hold from ANY program value with duplicate-free rows: second and later runs, runs after pushes or an initialiser (agg_view_each_once_from, "
         "run_agg_eq_model_from, second_run_agg_view_each_once). Tied by compiled generated programs with count/sum/min/max/not at "
         "stratum depth 1-3 over every mix of bound / wildcard / aggregated columns, vs model and stratified naive oracle; F15 (caller duplicates) is a known finding whose "
-        "bug-faithful model prediction is matched exactly; F2/F3 are fixed and their witnesses must pass. Props/C04Phys.lean: the generated code over its PHYSICAL indices with aggregation / negation items (index_get with the evaluated key arguments on the index the plan chose, stored version of the aggregated relation) computes the stratified model, every aggregation over the final rows, each tuple once (runPhys_agg_eq_model, via runND_agg_spec: every execution of the nondeterministic engine does); tied by `eng runp` on every fourth input. Props/C04Lat.lean: an aggregate / negation over a LATTICE of a lower stratum sees one row per key with the final value (agg_over_lattice_one_row_per_key; abstract engine, serial; closed / least characterisation of mixed programs: tie only).",
+        "bug-faithful model prediction is matched exactly; F2/F3 are fixed and their witnesses must pass. Props/C04Phys.lean: the generated code over its PHYSICAL indices with aggregation / negation items (index_get with the evaluated key arguments on the index the plan chose, stored version of the aggregated relation) computes the stratified model, every aggregation over the final rows, each tuple once (runPhys_agg_eq_model, via runND_agg_spec: every execution of the nondeterministic engine does); tied by `eng runp` on every fourth input. Props/C04Lat.lean: an aggregate / negation over a LATTICE of a lower stratum sees one row per key with the final value (agg_over_lattice_one_row_per_key; abstract engine, serial). Props/C04LatSem.lean: the final database of a stratified program with lattices AND aggregation is closed under the rules with aggregates evaluated on the final rows, and least for monotone programs (run_mixed_closed, run_mixed_least).",
    design_ref="DESIGN.md §8 C04", note=ENGINE_NOTE + " Aggregation over lattices (serial: tie of this check; parallel: tie of C02, F5 fixed) is outside the theorems."),
  "C18": dict(
    engine="tie-C-ds",
